@@ -200,3 +200,40 @@ def h_main(ctx, cfg):
     # two options carrying the *same* text are still two sources
     outcome, log = run_main(None, "json", None, "json", dict(zip(FLAGS, [False] * 5)))
     ctx.prove("equal_texts_in_two_options_are_two_sources", z3.BoolVal(outcome == "usage"))
+
+
+@harness("cli.parser.contract", props=["C16"], functions=["code_data._cli.parser"], configs="any", engine="E2",
+         notes="bounded (representative texts): discharges, on the module's real argparse parser, the contract that `main`'s proof assumes of parse_args - each source option delivers "
+               "exactly the text that was given (also an empty text, a text with spaces/newlines/non-ASCII, a text starting with '@' such as a decorated def), absent options are None, "
+               "flags default to False, the positional file becomes a path of that name; an unknown option or an extra positional is a usage error")
+def h_parser(ctx, cfg):
+    import contextlib
+    import io
+    M = cli_module()
+    parser = M.parser
+    texts = ["x = 1", "", "@staticmethod\ndef f(): pass", "a = 'b c'\nprint(a)", "x = '\u00e9 \u4e16'", "@args.txt", "1 if x else 2", "=x", "x=1 # -c --json", "-1"]
+
+    def parse(argv):
+        err = io.StringIO()
+        try:
+            with contextlib.redirect_stderr(err), contextlib.redirect_stdout(io.StringIO()):
+                return parser.parse_args(argv), None
+        except SystemExit as e:
+            return None, (e.code, err.getvalue().strip()[-120:])
+    for t in texts:
+        for opt, attr in (("-c", "c"), ("-e", "e"), ("-m", "m")):
+            ns, err = parse([opt, t])
+            ok = ns is not None and getattr(ns, attr) == t and all(getattr(ns, a) is None for a in ("c", "e", "m", "file") if a != attr) and not any(
+                getattr(ns, f) for f in ("dis", "source", "dis_after", "no_normalize", "json"))
+            ctx.prove("option_delivers_exactly_the_given_text[%s]" % opt, z3.BoolVal(ok), detail="%r -> %r %r" % (t, ns, err))
+            ns, err = parse([opt, t, "--json", "--no-normalize"])
+            ctx.prove("flags_are_independent_of_the_source_text[%s]" % opt, z3.BoolVal(ns is not None and getattr(ns, attr) == t and ns.json and ns.no_normalize and not ns.dis and not ns.dis_after and not ns.source),
+                      detail="%r -> %r %r" % (t, ns, err))
+    for name in ("prog.py", "dir/prog.py", "@prog.py", "a b.py"):
+        ns, err = parse([name])
+        ctx.prove("positional_file_is_a_path_of_that_name", z3.BoolVal(ns is not None and ns.file is not None and str(ns.file) == name and ns.c is None and ns.e is None and ns.m is None), detail="%r -> %r %r" % (name, ns, err))
+    ns, err = parse([])
+    ctx.prove("no_arguments_parse_to_all_absent", z3.BoolVal(ns is not None and ns.file is None and ns.c is None and ns.e is None and ns.m is None), detail=repr((ns, err)))
+    for argv in (["--unknown-flag", "-c", "x"], ["a.py", "b.py"], ["-c"], ["--js"] if False else ["-c", "x", "extra.py", "more.py"]):
+        ns, err = parse(argv)
+        ctx.prove("unknown_options_and_extra_positionals_are_usage_errors", z3.BoolVal(ns is None and err[0] == 2), detail="%r -> %r %r" % (argv, ns, err))
